@@ -6,6 +6,7 @@
 -/
 import Spydr.IR.CloneLemmas
 import Spydr.IR.BelowStep
+import Spydr.IR.SepStep
 import Spydr.IR.Props.C14
 namespace Spydr.IR
 
@@ -96,6 +97,26 @@ theorem cloneNetlist_closed (s : S) (off : OId) (hb : Below s off) :
     grind [shO_eq_some]
   · intro d i h
     grind
+
+/-- after cloning, originals and copies are separated: no pointer of any kind crosses -/
+theorem sep_double (s : S) (off : OId) (hb : Below s off) : Sep (s.double off) off := by
+  obtain ⟨b1,b2,b3,b4,b5,b6,b7,b8,b9,b10,b11,b12,b13,b14,b15,b16,b17,b18,b19,b20,b21,b22⟩ := hb
+  simp only [S.double]
+  constructor <;> grind [mem_shL, shO_eq_some, shO_eq_none, inner_mem_shPL, outer_mem_shPL]
+
+/-- **Independence (copy → original)**: "later edits or transformations of the clone never show in the
+    original" — after ANY history of public calls that mention only objects of the copy, every field of
+    every pre-existing object is what it was, and the two regions are still separated (so the statement
+    iterates). PARTIAL: the converse direction (edits of the original never show in the copy) is the
+    mirror-image statement `op.below off → HighEq`; it is not proved (it needs the 37 per-operation frame
+    lemmas once more) and is covered by the correspondence / fingerprint checks only. -/
+theorem clone_edits_invisible_in_original (s : S) (off : OId) (hb : Below s off) (ops : List Op)
+    (ho : ∀ op ∈ ops, op.above off) :
+    LowEq (run (s.double off) ops).1 s off ∧ Sep (run (s.double off) ops).1 off := by
+  have h := run_sep off ops (s.double off) (sep_double s off hb) ho
+  refine ⟨lowEq_trans h.2 ?_, h.1⟩
+  have fr := cloneNetlist_frame s off
+  exact ⟨fr.1, fr.2.1, fr.2.2⟩
 
 /-- **For every reachable heap**: whatever history of public calls built it (all objects mentioned lying
     below `off`, which is how fresh objects are numbered), cloning gives a heap in which originals and
